@@ -60,6 +60,10 @@ class Slimmer:
                           "type": (rd.get("type") or {}).get("qualType")}
         if "referencedMemberDecl" in n:
             out["memid"] = n["referencedMemberDecl"]
+        if n.get("kind") == "UnaryExprOrTypeTraitExpr" and isinstance(n.get("argType"), dict):
+            out["argtype"] = n["argType"].get("desugaredQualType") or n["argType"].get("qualType")
+        if n.get("kind") == "EnumDecl" and isinstance(n.get("fixedUnderlyingType"), dict):
+            out["utype"] = n["fixedUnderlyingType"].get("desugaredQualType") or n["fixedUnderlyingType"].get("qualType")
         if n.get("kind") == "TemplateArgument":
             if isinstance(n.get("type"), dict):
                 out["targ_type"] = n["type"].get("qualType")
